@@ -189,13 +189,24 @@ def run_lattice(cfg):
                              preconditioning_kwargs=dict(m["precond_kwargs"]) if m["precond_kwargs"] else None)
         smp.rng = rng
         kw = {"sampler_kwargs": {"n_steps": 1}} if sampler == "smc" else {"sampler_kwargs": {"nsteps": 1, "progress": False}}
-        res = smp.sample(2, n_steps=T, adaptive=False, n_final_samples=nfinal, **kw)
+        try:
+            res = smp.sample(2, n_steps=T, adaptive=False, n_final_samples=nfinal, **kw)
+        except explorer.HarnessError:
+            raise
+        except Exception as e:  # the library failing on a lattice run is a verdict, not a harness error
+            from env import exc_site
+
+            return ("raised", type(e).__name__, exc_site(e), repr(e)[:200]), smp, flow
         return res, smp, flow
 
     problem = {"like": m["like"], "prior": m["prior"]}
     for ex in explorer.explore(body, weighted=True):
         res, smp, flow = ex.result
         case = {"part": "lattice", "cfg": list(cfg), "choices": ex.choices}
+        if isinstance(res, tuple) and res and res[0] == "raised":
+            r.case(explorer.digest(case), nontrivial=True)
+            r.violation(f"C10/{sampler}/lattice-run-raises/{res[1]}/{res[2]}", res[3], case)
+            continue
         pops = [("final", rh.snapshot_samples(res))] + [(f"history[{i}]", rh.snapshot_samples(s)) for i, s in enumerate(smp.history.sample_history)]
         moved = any(c != 0 for c in ex.choices)
         r.case(explorer.digest(case), nontrivial=moved)
